@@ -101,7 +101,7 @@ func short(s string) string {
 	return fmt.Sprintf("%q", s)
 }
 
-func decodeCase(why, s string) {
+func decodeCase(why, s string, emit bool) {
 	c.Obs.Evaluations++
 	js := caseJS{Mode: 0, Input: s, Why: why}
 	status, f := runDecode(s)
@@ -111,7 +111,10 @@ func decodeCase(why, s string) {
 	if status == 0 {
 		fs, bs = fields(f), refURL(f)
 	}
-	sh, ix := c.Case(hx.Tuple("0", hx.Bytes([]byte(s)), hx.Z(int64(status)), hx.ZList(fs), hx.Bytes(bs)), js)
+	sh, ix := -1, 0
+	if emit {
+		sh, ix = c.Case(hx.Tuple("0", hx.Bytes([]byte(s)), hx.Z(int64(status)), hx.ZList(fs), hx.Bytes(bs)), js)
+	}
 	if status != 1 && status != 2 {
 		c.Nontrivial("d" + s)
 	}
@@ -128,7 +131,7 @@ func describe(f fileid.FileID) string {
 }
 
 // encodeCase: EncodeFileID then (for canonical ids) DecodeFileID must give the id back.
-func encodeCase(why string, f fileid.FileID, canon bool) string {
+func encodeCase(why string, f fileid.FileID, canon bool, emit bool) string {
 	c.Obs.Evaluations++
 	js := caseJS{Mode: 1, ID: &f, Canon: canon, Why: why}
 	var s string
@@ -139,7 +142,10 @@ func encodeCase(why string, f fileid.FileID, canon bool) string {
 		c.Violate("encode-panic-or-error", fmt.Sprintf("EncodeFileID(%s) panicked=%v err=%v", describe(f), p, err), -1, 0, js)
 		return ""
 	}
-	sh, ix := c.Case(hx.Tuple("1", hx.Bytes([]byte(s)), "0", hx.ZList(fields(f)), hx.Bytes(refURL(f))), js)
+	sh, ix := -1, 0
+	if emit {
+		sh, ix = c.Case(hx.Tuple("1", hx.Bytes([]byte(s)), "0", hx.ZList(fields(f)), hx.Bytes(refURL(f))), js)
+	}
 	c.Nontrivial("e" + s)
 	c.Sample(map[string]interface{}{"id": describe(f), "encoded": s})
 	if canon {
@@ -170,13 +176,16 @@ func maxZeroRun(b []byte) int {
 	return best
 }
 
-func rleCase(why string, s []byte) {
+func rleCase(why string, s []byte, emit bool) {
 	c.Obs.Evaluations++
 	js := caseJS{Mode: 2, Raw: s, Why: why}
 	var enc, dec []byte
 	p, _ := hx.Recover(func() { enc = fileid.VerifRLEEncode(s); dec = fileid.VerifRLEDecode(enc) })
 	c.Count("rle:" + why)
-	sh, ix := c.Case(hx.Tuple("2", hx.Bytes(s), "0", "[]", hx.Bytes(enc)), js)
+	sh, ix := -1, 0
+	if emit {
+		sh, ix = c.Case(hx.Tuple("2", hx.Bytes(s), "0", "[]", hx.Bytes(enc)), js)
+	}
 	c.Nontrivial(fmt.Sprintf("r%x", s))
 	if p {
 		c.Violate("rle-panic", fmt.Sprintf("rleEncode/rleDecode panicked on %d bytes", len(s)), sh, ix, js)
@@ -191,13 +200,16 @@ func rleCase(why string, s []byte) {
 	}
 }
 
-func rleDecodeCase(why string, s []byte) {
+func rleDecodeCase(why string, s []byte, emit bool) {
 	c.Obs.Evaluations++
 	js := caseJS{Mode: 3, Raw: s, Why: why}
 	var dec []byte
 	p, _ := hx.Recover(func() { dec = fileid.VerifRLEDecode(s) })
 	c.Count("rledec:" + why)
-	sh, ix := c.Case(hx.Tuple("3", hx.Bytes(s), "0", "[]", hx.Bytes(dec)), js)
+	sh, ix := -1, 0
+	if emit {
+		sh, ix = c.Case(hx.Tuple("3", hx.Bytes(s), "0", "[]", hx.Bytes(dec)), js)
+	}
 	if p {
 		c.Violate("rle-panic", fmt.Sprintf("rleDecode panicked on %x", s), sh, ix, js)
 	}
@@ -315,25 +327,25 @@ func randCanonical(r *hx.Rand, typ, kind int) fileid.FileID {
 func b64(b []byte) string { return base64.RawURLEncoding.EncodeToString(b) }
 
 func main() {
-	c = hx.Start("C38", "Run.Check_C38", 800)
+	c = hx.Start("C38", "Run.Check_C38", 300)
 	var rp caseJS
 	if c.LoadReplay(&rp) {
 		switch rp.Mode {
 		case 0:
 			st, f := runDecode(rp.Input)
 			fmt.Printf("replay: DecodeFileID(%s) -> status=%d %s\n", short(rp.Input), st, describe(f))
-			decodeCase("replay", rp.Input)
+			decodeCase("replay", rp.Input, true)
 		case 1:
-			s := encodeCase("replay", *rp.ID, rp.Canon)
+			s := encodeCase("replay", *rp.ID, rp.Canon, true)
 			st, g := runDecode(s)
 			fmt.Printf("replay: EncodeFileID(%s) = %s; decode status=%d %s\n", describe(*rp.ID), short(s), st, describe(g))
 		case 2:
 			enc := fileid.VerifRLEEncode(rp.Raw)
 			dec := fileid.VerifRLEDecode(enc)
 			fmt.Printf("replay: rleEncode(%d bytes, zero run %d) = %x; rleDecode gives %d bytes, equal=%v\n", len(rp.Raw), maxZeroRun(rp.Raw), enc, len(dec), bytes.Equal(dec, rp.Raw))
-			rleCase("replay", rp.Raw)
+			rleCase("replay", rp.Raw, true)
 		case 3:
-			rleDecodeCase("replay", rp.Raw)
+			rleDecodeCase("replay", rp.Raw, true)
 		}
 		c.Finish()
 		return
@@ -342,21 +354,21 @@ func main() {
 
 	// corpus: the defect of the zero-run byte counter (DESIGN section 8) and its boundary
 	for _, n := range []int{300, 256, 255, 254, 257, 511, 512, 600} {
-		rleCase("corpus", make([]byte, n))
-		encodeCase("corpus", fileid.FileID{Type: fileid.Document, DC: 2, ID: 5, AccessHash: 7, FileReference: make([]byte, n)}, true)
+		rleCase("corpus", make([]byte, n), true)
+		encodeCase("corpus", fileid.FileID{Type: fileid.Document, DC: 2, ID: 5, AccessHash: 7, FileReference: make([]byte, n)}, true, true)
 	}
-	encodeCase("corpus", fileid.FileID{Type: fileid.Document, DC: 2, ID: 0, AccessHash: 0}, true)
-	encodeCase("corpus", fileid.FileID{Type: fileid.Photo, DC: 4, ID: 1, AccessHash: -1, PhotoSizeSource: fileid.PhotoSizeSource{Type: fileid.PhotoSizeSourceThumbnail, FileType: fileid.Photo, ThumbnailType: 'x'}}, true)
+	encodeCase("corpus", fileid.FileID{Type: fileid.Document, DC: 2, ID: 0, AccessHash: 0}, true, true)
+	encodeCase("corpus", fileid.FileID{Type: fileid.Photo, DC: 4, ID: 1, AccessHash: -1, PhotoSizeSource: fileid.PhotoSizeSource{Type: fileid.PhotoSizeSourceThumbnail, FileType: fileid.Photo, ThumbnailType: 'x'}}, true, true)
 	for _, s := range []string{ // ids from the package's own tests
 		"CAACAgIAAxkBAAEHZnVjzsCRbtD0PnV2E1mT9kYnD5iPNQACaQIAArrAlQUw5zOp4KLsaS0E",
 		"AgACAgIAAxkBAAEHZntjzsCviRJM3EbDYqBdH2ppZOVxgwACoMIxG-zqcUqEwHgm5dX1SAEAAwIAA3MAAy0E",
 		"", "!", "A", "AA", "AAAA", "BA", "AgQ", "AwQ", "\n", "AA\nAA", "AA==",
 	} {
-		decodeCase("corpus", s)
+		decodeCase("corpus", s, true)
 	}
 
 	// generated canonical ids: every Type x every photo-size-source kind first, then random
-	n := c.N(450, 8000)
+	n := c.N(900, 8000)
 	for i := 0; i < n; i++ {
 		typ, kind := i%18, (i/18)%10
 		if i >= 180 {
@@ -366,11 +378,16 @@ func main() {
 			}
 		}
 		f := randCanonical(r, typ, kind)
-		s := encodeCase("canonical", f, true)
+		// the Go oracle sees every case; the Coq correspondence a sample of moderate size
+		coq := (i < 180 && i%2 == 0) || (i >= 180 && i%4 == 0) || (c.Thorough() && i%3 == 0)
+		if len(f.FileReference) > 320 && i%16 != 0 {
+			coq = false
+		}
+		s := encodeCase("canonical", f, true, coq)
 		if s == "" {
 			continue
 		}
-		decodeCase("valid", s)
+		decodeCase("valid", s, coq)
 		// mutated valid id
 		if r.Chance(1, 2) {
 			m := []byte(s)
@@ -387,7 +404,7 @@ func main() {
 			case 4:
 				m = append(m, "ABCDEFGHIJKLMNOPQRSTUVWXYZabcdefghijklmnopqrstuvwxyz0123456789-_"[r.Intn(64)])
 			}
-			decodeCase("mutated", string(m))
+			decodeCase("mutated", string(m), i%3 == 0)
 		}
 	}
 	// non-canonical ids: encode only (fields the format does not carry, negative DC)
@@ -405,14 +422,14 @@ func main() {
 		case 3:
 			f.Type = fileid.Type(r.Range(18, 40))
 		}
-		if s := encodeCase("noncanonical", f, false); s != "" {
-			decodeCase("noncanonical", s)
+		if s := encodeCase("noncanonical", f, false, i%2 == 0); s != "" {
+			decodeCase("noncanonical", s, i%2 == 0)
 		}
 	}
 	c.Note("DC is a 32-bit field read unsigned by decodeLatestFileID: the round-trip domain is 0 <= DC < 2^32 (negative DCs come back as DC+2^32; Telegram DC ids are small positive numbers); FileReference nil and empty are identified")
 
 	// RLE directly
-	for i := 0; i < c.N(200, 5000); i++ {
+	for i := 0; i < c.N(400, 5000); i++ {
 		var s []byte
 		switch r.Intn(4) {
 		case 0:
@@ -431,7 +448,7 @@ func main() {
 				}
 			}
 		}
-		rleCase("random", s)
+		rleCase("random", s, i%3 == 0 && len(s) <= 700)
 	}
 	for i := 0; i < c.N(100, 3000); i++ {
 		s := r.Bytes(r.Intn(24))
@@ -440,7 +457,7 @@ func main() {
 				s[j] = 0
 			}
 		}
-		rleDecodeCase("arbitrary", s)
+		rleDecodeCase("arbitrary", s, i%2 == 0)
 	}
 
 	// arbitrary strings
@@ -452,13 +469,13 @@ func main() {
 			for j := range b {
 				b[j] = "ABCDEFGHIJKLMNOPQRSTUVWXYZabcdefghijklmnopqrstuvwxyz0123456789-_"[r.Intn(64)]
 			}
-			decodeCase("random-b64", string(b))
+			decodeCase("random-b64", string(b), i%2 == 0)
 		case 1: // raw bytes
-			decodeCase("raw-bytes", string(r.Bytes(r.Intn(40))))
+			decodeCase("raw-bytes", string(r.Bytes(r.Intn(40))), i%2 == 0)
 		case 2: // random binary body with a plausible version byte
 			body := r.Bytes(r.Intn(60))
 			body = append(body, []byte{4, 4, 4, 2, 3, 0, 5, 255}[r.Intn(8)])
-			decodeCase("random-body", b64(fileid.VerifRLEEncode(body)))
+			decodeCase("random-body", b64(fileid.VerifRLEEncode(body)), i%2 == 0)
 		default: // structured body with legacy sub-versions
 			var buf bin.Buffer
 			typ := uint32(r.Intn(3))
@@ -493,7 +510,7 @@ func main() {
 			}
 			sub := []byte{0, 3, 4, 21, 22, 31, 32, 34, 35, 255, byte(r.U64())}[r.Intn(11)]
 			buf.Buf = append(buf.Buf, sub, 4)
-			decodeCase("legacy-body", b64(fileid.VerifRLEEncode(buf.Buf)))
+			decodeCase("legacy-body", b64(fileid.VerifRLEEncode(buf.Buf)), true)
 		}
 	}
 	c.Obs.Rule = "evaluation = one EncodeFileID(+DecodeFileID round trip), one DecodeFileID of a string, or one rleEncode/rleDecode call; non-trivial = distinct encode case, rle case, or decode case that gets past base64 (status other than empty/base64 error)"
